@@ -381,6 +381,34 @@ def calcs_of(model, arg):
     return [calc(model, c) for c in arg.get("calc") or []]
 
 
+FLAYOUT = {"float64": (52, 11), "float32": (23, 8)}       # (fraction bits, exponent bits)
+
+
+def is_nan_bits(dtype, b) -> bool:
+    m, e = FLAYOUT[dtype]
+    return (b >> m) & ((1 << e) - 1) == (1 << e) - 1 and b & ((1 << m) - 1) != 0
+
+
+def canon_num(num):
+    """The VALUE of a list of computed results (what `calc` returned), for comparison between two evaluations.
+
+    A NaN that comes out of an arithmetic operation is a NaN: which operand's payload (and sign) an operation with two
+    NaN operands -- or an invalid operation -- hands back is not a function of the operands under IEEE 754; on x86 it is
+    the first *machine* operand's, and which Python operand that is depends on the code path (CPython's generic
+    `float_add` and its specialised `BINARY_OP_ADD_FLOAT` differ, so the first evaluation in a fresh process and a later
+    one in the same process disagree; vector and scalar tails of a SIMD loop may as well).  Every computed NaN is therefore
+    replaced by the token "nan"; every other result keeps its exact bit pattern (subnormal numbers, signed zeros,
+    infinities, the last bit of every rounding).  TRANSPORTED values (the model's leaves, `digest`) are not touched: a NaN
+    of the model must arrive with its payload."""
+    out = []
+    for r in num or []:
+        if isinstance(r, list) and len(r) == 2 and r[0] in FLAYOUT:
+            out.append([r[0], ["nan" if is_nan_bits(r[0], b) else b for b in r[1]]])
+        else:
+            out.append(r)
+    return out
+
+
 class TaskFailure(Exception):
     pass
 
